@@ -448,6 +448,7 @@ def class_lines(fam):
                 "_" if a.get("d") is None else a["d"],
                 "_" if a.get("prep") is None else str(a["prep"]),
                 "_" if a.get("ip") is None else str(a["ip"]),
+                a["d"] if a.get("d") is not None and a.get("dk") in ("value", "attr", "field") else "_",
             ]
         lines.append(" ".join(parts))
     return lines
@@ -492,6 +493,9 @@ def build_family(fam):
             if cd.get("key") is not None:
                 kw["key"] = attr_name(cd["key"])
             kw["bootstrap"] = bool(cd.get("eager", True))
+            if cd.get("dnc") is not None:
+                # do_not_copy differing from the parent class: inherited Attr specs are rebuilt
+                kw["do_not_copy"] = True if cd["dnc"] is True else [attr_name(a) for a in cd["dnc"]]
             cls = spec_class(**kw)(cls)
         else:
             cls = type(f"C{cid}", bases, ns)
